@@ -5,10 +5,11 @@ claim('C20',
       'Bounded symbolic execution of the real FileStream code on a fake file system: max_bytes and every write length are '
       'unbounded solver integers, backup_count in [1,3], 3-5 writes from an empty directory (c20_rotate) plus ONE inductive '
       'step from an arbitrary invariant-satisfying directory with pre-existing backups (c20_step), so histories of any length '
-      'are covered if the invariant is right; prefix and append-only conditions over all short strings. CrossHair reports '
+      'are covered if the invariant is right; rotation with a time_format for every max_bytes (c20_timed_rotate), UTF-8 byte accounting on multi-byte '
+      'text (c20_bytes), 8-12 backups with a rollover per write (c20_deep); prefix (two pids) and append-only conditions over all short strings. CrossHair reports '
       '"confirmed over all paths" per condition; seeded canaries (>= to >, broken shift loop, prefix on first line only) are refuted.',
       'Trusted: the fake file system (append, rename-replaces, remove) and CrossHair/z3 themselves; sizes counted in characters '
-      '(ASCII). Outside: more than 3 backups, multi-byte text, real disk errors, TimedRotatingFileStream/WatchedFileStream.')
+      '(ASCII) except in c20_bytes. Outside: undecodable bytes, real disk errors, TimedRotatingFileStream/WatchedFileStream.')
 
 WORLD_NOTE = ('Trusted: the simulated world (vtlib/world: process table with signals / waitpid / re-parenting, virtual clock and '
               'event-loop selector, fake zmq, FakePopen honouring the psutil-7 / subprocess contract) and CrossHair/z3. pid reuse, real '
@@ -19,17 +20,22 @@ claim('C01',
       'from an 11-event menu (exit, external kill, incr/decr/set with solver-chosen integer parameters, restart, three reload modes, '
       'periodic check, time) with 4 placements each and one worker death injected at any kernel call; (b) an inductive step from an '
       'arbitrary quiescent watcher state (<=3 table entries alive/zombie/gone, any target) through three real periodic checks. Oracle on '
-      'kernel ground truth: live = table = list reply = numprocesses, no zombie, fixpoint, post-restart generations. CrossHair exhausts each shard.',
-      WORLD_NOTE + 'Bounds: numprocesses <= 3, K <= 2 from boot (longer histories only through the inductive step), respawn=True, no max_age/on_demand.')
+      'kernel ground truth: live = table = list reply = numprocesses, no zombie, fixpoint, post-restart generations. Configuration variants '
+      '(graceful_timeout 0 with stubborn workers, send_hup, max_age, stop_children), a signal delivery that fails once with EPERM, and a higher-priority '
+      'neighbour watcher whose management raises on every check. CrossHair exhausts each shard.',
+      WORLD_NOTE + 'Bounds: numprocesses <= 3, K <= 2 from boot (longer histories only through the inductive step), respawn=True, no on_demand.')
 claim('C02',
       'Bounded symbolic execution of stop / restart / rm / quit (through the real Controller) with obedient, slow, too-slow and stubborn '
       'workers, issued at quiescence or while a non-exclusive kill request is in flight, with one SIGKILL death injected at every kernel call '
       'of the stop sequence, followed by K<=2 follow-up events (check, incr, decr, set numprocesses, set of reload-class options, kill, signal) '
-      'on the stopped watcher. Oracle: no live or zombie child, status stopped, numprocesses 0, spawn log unchanged, start still starts.',
+      'on the stopped watcher; variants graceful_timeout 0, max_age, an on_demand watcher stopped during its background start / after one worker died / in '
+      'the pause before a second on_demand watcher, and a stop cut short by EPERM then requested again; c02_socket_event: a connection starts the waiting '
+      'on_demand watcher and never a watcher stopped by request. Oracle: no live or zombie child, status stopped, numprocesses 0, spawn log unchanged, start still starts.',
       WORLD_NOTE + 'Runs in which the loop is blocked are skipped here (C05).')
 claim('C03',
       'Bounded symbolic execution of every termination cause (stop, restart, decr, reload, sequential reload, kill with and without signum / '
-      'graceful_timeout overrides, max_age expiry, and two overlapping terminations of the same worker) over a 0.05 s grid of graceful_timeout and '
+      'graceful_timeout overrides, max_age expiry, two overlapping terminations of the same worker, a termination following one that failed with EINVAL / '
+      'EPERM, a child exiting at any kernel call of the termination) over a 0.05 s grid of graceful_timeout and '
       'worker reaction delays (on, between, exactly at polling instants and the timeout; stubborn), three stop signals, with children and '
       'grandchildren; oracle on the kernel signal log. Plus a z3 QF_LRA lemma generated from the AST of kill_process: for EVERY real '
       'graceful_timeout <= 60 s (thorough 120 s) the float-accumulating wait loop escalates neither early nor more than one polling step late.',
@@ -56,33 +62,40 @@ claim('C05',
       'reload-class options) with stubborn, slow and obedient workers, graceful_timeout 0.3 s and 0: the virtual clock turns every time.sleep '
       'inside a loop callback into measured blocking (50 ms bound, 5 s watchdog), all eight read-only commands are probed after every event and must be '
       'answered without the loop turning, and every accepted waiting request must be answered within the applicable grace and warm-up delays + 0.5 s.',
-      WORLD_NOTE + 'Blocking = time.sleep in the loop thread; the cost of fork/exec itself is not charged. One listed known finding (reap_process busy-wait).')
+      WORLD_NOTE + 'Blocking = time.sleep, fork/exec time (1-5 ms per spawn), a read on an empty pipe, select without a finite timeout, or more than 3000 kernel '
+      'calls inside one loop callback. Also: captured output with a helper child holding the pipes; fork failing persistently with EAGAIN; an idle on_demand watcher. '
+      'One listed known finding (reap_process busy-wait).')
 claim('C06',
       'Bounded symbolic execution of the real Controller and client library: structured byte strings (fringe bytes around 18 JSON cores), JSON '
       'documents assembled from menus for id / command / msg_type / properties over every registered command (real codec), operations that fail after '
       'the immediate path with and without waiting, and CircusClient.call against scripted reply sequences (own / stale / foreign / id-less / duplicate / '
-      'garbage, re-sent message dict); free short byte strings as bounded bug hunting. Oracle: exactly one two-frame reply with the request id and status '
+      'garbage, re-sent message dict, a client stall across the deadline on a virtual clock); hook code leaving through SystemExit / KeyboardInterrupt / '
+      'GeneratorExit (c06_exit); free short byte strings as bounded bug hunting. Oracle: exactly one two-frame reply with the request id and status '
       'ok/error (none for cast), daemon still serving.',
       WORLD_NOTE + 'AsyncCircusClient is not driven; `status` replies carry the watcher status by documented design.')
 claim('C09',
       'Bounded symbolic execution of histories (13-event menu) with a worker death whose WAIT STATUS IS SYMBOLIC (every exit code 0..255, every '
       'signal 1..64 with and without core flag, decoded by arithmetic W* macros proven equal to glibc\'s) placed at any kernel call; the captured '
       'event stream is replayed by an independent subscriber model and compared with kernel ground truth (one spawn per pid before any reap, at most '
-      'one reap, believed-alive = alive, reap exit_code = status / -signal, start/stop vs status).',
+      'one reap, believed-alive = alive, reap exit_code = status / -signal, start/stop vs status). Also deaths placed as events before a request, signal '
+      'requests (plain / recursive / children / one pid) to workers that survive them, and send_hup / max_age / on_demand configurations.',
       WORLD_NOTE, technique=TECH + '; z3 bit-vector lemma for the wait-status macros')
 claim('C10',
-      'Bounded symbolic execution: a first state-changing request (18 kinds incl. the periodic check) that succeeds, raises synchronously or fails '
+      'Bounded symbolic execution: a first state-changing request (20 kinds incl. the periodic check and non-graceful reloads) that succeeds, raises synchronously or fails '
       'asynchronously after suspension (unexpected exception in a later spawn); a second and third request after g loop turns. Refused requests must be '
-      'conflict errors, change nothing (snapshot + kernel logs) and leave the slot to its owner; afterwards the slot is free and incr/decr are accepted.',
+      'conflict errors, change nothing (snapshot + kernel logs) and leave the slot to its owner; a watcher in a transient status while the slot is free is a violation; '
+      'afterwards the slot is free and incr/decr are accepted. c10_reloadconfig: [circus] edits (in-process restart) failing at the n-th step.',
       WORLD_NOTE + 'Daemon self-restart excluded.')
 claim('C11',
-      'Bounded symbolic execution over a generated menu of ~150 corrupted or conflicting requests (dropped fields, every JSON type per field, unknown '
-      'watcher / option / user / signal, out-of-domain values, bad option first / middle / last among good ones, valid requests during a conflict) in '
+      'Bounded symbolic execution over a generated menu of 124 corrupted or conflicting requests (dropped fields, every JSON type per field, unknown '
+      'watcher / option / user / signal, out-of-domain values, bad option first / middle / last among good ones, ill-typed values EQUAL to valid ones the daemon '
+      'was primed with (real functools.lru_cache), valid requests during a conflict) in '
       'three daemon states; an error reply must leave watchers, all options, statuses, pids, kernel spawn / signal logs, events and the exclusive slot unchanged '
       '(immediately and after settling).',
       WORLD_NOTE + 'One listed known finding (`set` applies options one by one). The solver acts as an enumerator here: all inputs are selectors.')
 claim('C12',
-      'Bounded symbolic execution of reloadconfig sequences (K<=3 edits from a 15-edit menu incl. reverts, multi-watcher edits and env values that '
+      'Bounded symbolic execution of reloadconfig sequences (K<=3 edits from an 18-edit menu incl. reverts, multi-watcher edits, an invalid definition after which '
+      'the history continues with convergence alone claimed, and env values that '
       'parse_env_dict rewrites) on a real ini file: after every reload the daemon equals what get_config + Watcher.load_from_config yield for the file, '
       'unchanged watchers keep their pids, numprocesses-only edits keep the surviving workers, an unchanged file causes no kernel activity, removed watchers leave nothing.',
       WORLD_NOTE + 'The parser runs outside the tracer (concrete input); "fresh start" is judged against the parser, which is C16\'s subject.')
@@ -95,7 +108,8 @@ claim('C13',
 claim('C14',
       'Bounded symbolic execution of the hook matrix: start with every assignment of {true,false,raise} x {ignore} to the four start-phase hooks '
       '(quick: at most two non-default; thorough: all 1296), taking effect from the first or second call; stop / restart / signal / kill (8 request forms) '
-      'with every assignment to the stop and signal hooks; obedient and stubborn workers. Oracle: documented gating rules, SIGKILL exemption, one '
+      'with every assignment to the stop and signal hooks; a second watcher whose hooks all carry the ignore flag; a false / raising before_signal on top of the '
+      'start matrix; obedient and stubborn workers. Oracle: documented gating rules, SIGKILL exemption, one '
       'hook_success/hook_failure event per call.',
       WORLD_NOTE + 'Shares the listed finding of C04 (vetoed worker that ignores the stop signal).')
 claim('C15',
@@ -106,20 +120,22 @@ claim('C15',
 claim('C19',
       'Bounded symbolic execution with UNBOUNDED symbolic integer priorities (ties included) for three watchers, numprocesses and warm-up menus, autostart '
       'flags, five triggers (daemon start, start/restart all, start/restart by glob), a slow after_spawn hook, periodic checks landing inside the sequence and an '
-      'injected death; oracle on the kernel spawn log (priority blocks, no interleaving, per-watcher and global pacing, autostart).',
+      'injected death of the oldest / newest worker inside the sequence; oracle on the kernel spawn log (priority blocks, no interleaving, per-watcher and global pacing also '
+      'for the replacement spawned in the aftermath, autostart).',
       WORLD_NOTE)
 
 claim('C07',
       'Daemon-side half only. Bounded symbolic execution with REAL CircusSocket objects (unix + inet, so_reuseport) whose bind / listen / close calls are '
       'counted: eight watcher variants (reference in cmd / args / upper case / both syntaxes / two sockets / no use_sockets / stdin_socket only / reuseport) x '
-      'K<=2 events over worker generations; per spawn the argv given to Popen carries the fileno of THE daemon socket, the descriptor is reachable '
+      'K<=2 of 12 events (incl. `set cmd` to another socket) over worker generations; per spawn the argv given to Popen carries the fileno of THE daemon socket, the descriptor is reachable '
       '(close_fds False or listed in pass_fds, inheritable), sockets keep their fd, are bound and listening exactly once and never closed; watchers '
       'without use_sockets get close_fds=True.',
       WORLD_NOTE + 'Trusted, not checked: that a real child finds the socket at that descriptor (POSIX close_fds / inheritable semantics).')
 claim('C08',
       'Daemon-side half only. Bounded symbolic execution of the REAL circusd.main() (argument parsing, pid file, Arbiter.load_from_config, the '
       'blocking loop.start() on the virtual-time loop, finally-block) with real managed sockets and pid file: trigger {quit, quit waiting, SIGTERM, '
-      'SIGINT, SIGQUIT} delivered 1-3 times at any kernel call or right after a request that starts an exclusive operation, obedient / stubborn workers: '
+      'SIGINT, SIGQUIT} delivered 1-3 times at any kernel call or right after a request (incr, restart, reload, kill, reloadconfig adding a socket / replacing a watcher, '
+      'a connection for an on_demand watcher, the death of one of its workers), obedient / stubborn workers: '
       'exit 0, no child left, zmq and managed sockets closed, unix socket file and pid file gone, bounded time. Pid-file protocol over structured '
       'contents x liveness {own, live, dead, EPERM}.',
       WORLD_NOTE + 'Signals are delivered by calling the real handler; real signal delivery, the exit status seen by a parent and daemonize() are '
@@ -135,6 +151,6 @@ claim('C16',
 claim('C17',
       'Daemon-side half only. Bounded symbolic execution of the real Redirector on fake pipes with a lowest-free fd allocator: two workers (optionally '
       'with a helper child keeping the pipes open), stdout+stderr captured, K<=3 (thorough 4) events from {write n bytes around the 1024-byte buffer, '
-      'loop turns, close a pipe, death + respawn, sibling killed by request}; per (pid, channel) the delivered bytes equal the written bytes (order, once, '
+      'loop turns, close a pipe, death + respawn, sibling killed by request, an asynchronous kill racing the respawn, a run-time swap of the stream}; per (pid, channel) the delivered bytes equal the written bytes (order, once, '
       'label), a blocking read is a violation, EOF is read once per pipe, no fd of a dead worker stays open or tracked.',
       WORLD_NOTE + 'Trusted: real pipe / epoll semantics. Output still unread when a worker is killed is not claimed.')
